@@ -180,7 +180,67 @@ func Compile(c *Change) (*Compiled, error) {
 	if cc.Plus, err = parseSide(c.Kind, c.side(" +")); err != nil {
 		return nil, fmt.Errorf("model: plus side: %w", err)
 	}
+	if misplacedDots(cc.Minus) || misplacedDots(cc.Plus) {
+		return nil, ErrMisplacedDots
+	}
 	return cc, nil
+}
+
+// ErrMisplacedDots: an elision marker stands where no list is (e.g. the single
+// index of gen[DOTS]); the properties only speak of elisions in lists, blocks
+// and for-headers, so the model does not define such patterns.
+var ErrMisplacedDots = fmt.Errorf("model: elision outside a list")
+
+func misplacedDots(root reflect.Value) bool {
+	bad := false
+	var walk func(v reflect.Value, inList bool)
+	walk = func(v reflect.Value, inList bool) {
+		if bad || !v.IsValid() {
+			return
+		}
+		switch v.Kind() {
+		case reflect.Interface:
+			if !v.IsNil() {
+				walk(v.Elem(), inList)
+			}
+		case reflect.Ptr:
+			if v.IsNil() {
+				return
+			}
+			switch v.Type() {
+			case cgPtr, objPtr, scopePtr:
+				return
+			}
+			if id, ok := v.Interface().(*ast.Ident); ok {
+				if strings.HasPrefix(id.Name, "DOTS_") && !inList {
+					bad = true
+				}
+				return
+			}
+			if _, ok := forDots(v); ok {
+				walk(v.Elem().FieldByName("Body"), false)
+				return
+			}
+			if inList {
+				// the element itself may be the elision wrapper (ExprStmt / Field)
+				if _, ok := dotsIndex(v); ok {
+					return
+				}
+			}
+			walk(v.Elem(), false)
+		case reflect.Struct:
+			for i := 0; i < v.NumField(); i++ {
+				walk(v.Field(i), false)
+			}
+		case reflect.Slice:
+			isList := v.Type() == exprSlice || v.Type() == stmtSlice || v.Type() == fieldSlice
+			for i := 0; i < v.Len(); i++ {
+				walk(v.Index(i), isList)
+			}
+		}
+	}
+	walk(root, root.Kind() == reflect.Slice && root.Type() == stmtSlice)
+	return bad
 }
 
 var (
